@@ -57,7 +57,9 @@ None == [k |-> "none"]
 Init == /\ \E t \in InitTrees : st = Start(t) /\ hist = [tree |-> t, patches |-> << <<>> >>]
         /\ last = None
 \* well-formed streams only: data commands come after a target-info chunk
+\* and D (which, unlike A/E/H, is not specified to create folders) only hits an existing sqpack folder
 Chunk(c) == /\ st.res = "running" /\ (NeedsPlatform(c) => st.plat # -1)
+            /\ (c.k = "D" => Ancestors(DatPath(c, st.plat)) \subseteq MustDirs(st))
             /\ st' = Step(st, c) /\ last' = c
             /\ hist' = [hist EXCEPT !.patches[Len(hist.patches)] = Append(@, c)]
 Eof == /\ st.res = "running" /\ st' = Step(st, [k |-> "EOF"]) /\ last' = [k |-> "EOF"]
@@ -94,6 +96,9 @@ Frame ==
 Landing == last.k = "A" =>
   LET f == Target(last, st.plat) IN SubSeq(st.files[f], last.off * Block + 1, last.off * Block + Len(last.data)) = last.data
 
-EmitSeq == (Emit /\ st.res = "ok") => PrintT("REPLAY|" \o ToJson(hist))
+AsList(f) == LET ps == SetToSeq(DOMAIN f) IN [i \in 1..Len(ps) |-> [p |-> ps[i], c |-> f[ps[i]]]]
+EmitSeq == (Emit /\ st.res = "ok") =>
+  PrintT("REPLAY|" \o ToJson([files |-> AsList(hist.tree.files), dirs |-> SetToSeq(hist.tree.dirs),
+                               patches |-> hist.patches]))
 
 =============================================================================
